@@ -15,7 +15,7 @@ import time
 
 VERIF = os.path.dirname(os.path.dirname(os.path.abspath(__file__)))
 REPO = os.environ.get("VERIF_REPO", "/repo")
-BUILD = os.path.join(VERIF, "build")
+BUILD = os.environ.get("VERIF_BUILD", os.path.join(VERIF, "build"))
 COQ = os.path.join(VERIF, "coq")
 GOBIN = os.path.join(BUILD, "gobin")
 EVID = os.path.join(VERIF, "evidence")
@@ -157,21 +157,31 @@ def run_cmd(cmd, cwd=None, timeout=1800, extra_env=None, check=True, capture=Tru
     return p.returncode, p.stdout or "", time.time() - t0
 
 
+COQ_HEADER = ("-Q theories V\n"
+              "-arg -w -arg -notation-overridden,-deprecated-hint-without-locality,-deprecated-syntactic-definition\n")
+
+
 def coq_files():
-    out = []
-    for l in open(os.path.join(COQ, "_CoqProject")):
-        l = l.strip()
-        if l.endswith(".v"):
-            out.append(l)
-    return out
+    return sorted("theories/" + f for f in os.listdir(os.path.join(COQ, "theories")) if f.endswith(".v"))
+
+
+def _sync_coqproject():
+    """_CoqProject lists every theories/*.v (properties only add files)."""
+    body = COQ_HEADER + "\n".join(coq_files()) + "\n"
+    p = os.path.join(COQ, "_CoqProject")
+    if not os.path.exists(p) or open(p).read() != body:
+        with open(p, "w") as f:
+            f.write(body)
+        return True
+    return False
 
 
 def build_coq(keep_going=True):
     """Full .vo build (never -vos).  Returns (ok, log).  With keep_going, files that
     do not depend on a broken one are still built."""
     with Lock("coq"):
-        if not os.path.exists(os.path.join(COQ, "Makefile")) or \
-                os.path.getmtime(os.path.join(COQ, "Makefile")) < os.path.getmtime(os.path.join(COQ, "_CoqProject")):
+        changed = _sync_coqproject()
+        if changed or not os.path.exists(os.path.join(COQ, "Makefile")):
             run_cmd(["coq_makefile", "-f", "_CoqProject", "-o", "Makefile"], cwd=COQ)
         cmd = ["timeout", "3000", "make", "-j16"] + (["-k"] if keep_going else [])
         rc, log, _ = run_cmd(cmd, cwd=COQ, timeout=3100, check=False)
@@ -208,7 +218,7 @@ FORBIDDEN = re.compile(r"\b(Admitted|admit|Axiom|Axioms|Parameter|Parameters|Con
 def grep_forbidden():
     """No Admitted/admit/Axiom/... anywhere in the development (comments included, to be blunt)."""
     hits = []
-    for f in coq_files() + ["Extract.v"]:
+    for f in coq_files() + ["Extract.v.tmpl"]:
         p = os.path.join(COQ, f)
         for i, l in enumerate(open(p), 1):
             # Variable/Hypothesis outside a section are checked by Print Assumptions instead.
@@ -217,19 +227,25 @@ def grep_forbidden():
     return hits
 
 
-def build_model():
-    """Extract Dispatch.dispatch and link it with ocaml/driver.ml -> build/modelrun."""
-    with Lock("model"):
-        ex = os.path.join(BUILD, "extract")
+def build_model(prop):
+    """Extract dispatch over the property's model tables and link it with ocaml/driver.ml
+    -> build/<id>/modelrun."""
+    with Lock("model." + prop.id):
+        ex = os.path.join(BUILD, prop.id, "extract")
         os.makedirs(ex, exist_ok=True)
-        deps = [os.path.join(COQ, "theories", "Dispatch.vo"), os.path.join(COQ, "Extract.v"),
-                os.path.join(VERIF, "ocaml", "driver.ml")]
-        exe = os.path.join(BUILD, "modelrun")
-        if not os.path.exists(deps[0]):
-            raise HarnessError("Dispatch.vo missing: the model itself does not compile (see build/coq-make.log)")
+        models = list(prop.models)
+        deps = [os.path.join(COQ, "theories", m + ".vo") for m in models + ["Dispatch"]] + [
+            os.path.join(COQ, "Extract.v.tmpl"), os.path.join(VERIF, "ocaml", "driver.ml")]
+        exe = os.path.join(BUILD, prop.id, "modelrun")
+        for d in deps:
+            if not os.path.exists(d) or (d.endswith(".vo") and os.path.getmtime(d) < os.path.getmtime(d[:-1])):
+                raise HarnessError("%s missing or stale: the model itself does not compile (see build/coq-make.log)" % d)
         if os.path.exists(exe) and all(os.path.getmtime(exe) >= os.path.getmtime(d) for d in deps):
             return exe
-        shutil.copy(os.path.join(COQ, "Extract.v"), os.path.join(ex, "Extract.v"))
+        tmpl = open(os.path.join(COQ, "Extract.v.tmpl")).read()
+        tables = " ++ ".join(m.split("_")[0].lower() + "_table" for m in models)
+        with open(os.path.join(ex, "Extract.v"), "w") as f:
+            f.write(tmpl.replace("IMPORTS", " ".join(models)).replace("TABLES", tables))
         shutil.copy(os.path.join(VERIF, "ocaml", "driver.ml"), os.path.join(ex, "driver.ml"))
         run_cmd(["timeout", "600", "coqc", "-Q", os.path.join(COQ, "theories"), "V", "Extract.v"], cwd=ex)
         run_cmd(["timeout", "600", "ocamlfind", "ocamlopt", "-O3", "-w", "-a", "model.mli", "model.ml", "driver.ml",
@@ -238,12 +254,12 @@ def build_model():
         return exe
 
 
-def _overlay():
-    """overlay.json: every file under harness/overlay/<pkg>/ plus an instantiated copy of the
-    shared sx_test.go in each of those packages."""
+def _overlay(prop):
+    """build/<id>/overlay.json: every file under harness/<id>/<pkg>/ plus an instantiated copy of
+    the shared sx_test.go in each of those packages."""
     ov = {}
-    root = os.path.join(VERIF, "harness", "overlay")
-    gen = os.path.join(BUILD, "gen")
+    root = os.path.join(VERIF, "harness", prop.id)
+    gen = os.path.join(BUILD, prop.id, "gen")
     tmpl = open(os.path.join(VERIF, "harness", "common", "sx_test.go.tmpl")).read()
     for d, _, files in os.walk(root):
         gofiles = [f for f in files if f.endswith(".go")]
@@ -252,10 +268,13 @@ def _overlay():
         rel = os.path.relpath(d, root)
         pkgname = None
         for f in gofiles:
-            m = re.search(r"^package\s+(\w+)", open(os.path.join(d, f)).read(), re.M)
-            if m:
-                pkgname = m.group(1)
+            if f.endswith("_test.go"):
+                m = re.search(r"^package\s+(\w+)", open(os.path.join(d, f)).read(), re.M)
+                if m:
+                    pkgname = m.group(1)
             ov[os.path.join(REPO, rel, f)] = os.path.join(d, f)
+        if pkgname is None:
+            continue
         gd = os.path.join(gen, rel)
         os.makedirs(gd, exist_ok=True)
         gp = os.path.join(gd, "zz_verif_sx_test.go")
@@ -264,7 +283,7 @@ def _overlay():
             with open(gp, "w") as f:
                 f.write(body)
         ov[os.path.join(REPO, rel, "zz_verif_sx_test.go")] = gp
-    path = os.path.join(BUILD, "overlay.json")
+    path = os.path.join(BUILD, prop.id, "overlay.json")
     body = json.dumps({"Replace": ov}, indent=1, sort_keys=True)
     if not os.path.exists(path) or open(path).read() != body:
         with open(path, "w") as f:
@@ -272,14 +291,15 @@ def _overlay():
     return path
 
 
-def go_test_bin(pkg, race=False):
-    """Build the test binary of /repo/<pkg> from the current working tree with the verif
-    overlay.  Always invoked (the Go build cache makes an unchanged rebuild cheap)."""
+def go_test_bin(prop, pkg, race=False):
+    """Build the test binary of REPO/<pkg> from the current working tree with the property's
+    verif overlay.  Always invoked (the Go build cache makes an unchanged rebuild cheap)."""
     name = pkg.strip("./").replace("/", "_") + (".race" if race else "") + ".test"
-    os.makedirs(GOBIN, exist_ok=True)
-    out = os.path.join(GOBIN, name)
-    with Lock("go." + name):
-        ov = _overlay()
+    gobin = os.path.join(BUILD, prop.id, "gobin")
+    os.makedirs(gobin, exist_ok=True)
+    out = os.path.join(gobin, name)
+    with Lock("go." + prop.id + "." + name):
+        ov = _overlay(prop)
         cmd = ["go", "test", "-c", "-tags", "verif", "-vet=off", "-overlay", ov, "-o", out]
         extra = None
         if race:
@@ -289,6 +309,17 @@ def go_test_bin(pkg, race=False):
         rc, log, _ = run_cmd(cmd, cwd=REPO, timeout=1500, check=False, extra_env=extra)
         if rc != 0:
             raise HarnessError("go test -c failed for %s:\n%s" % (pkg, log[-6000:]))
+    return out
+
+
+def go_build_overlay(prop, pkg, outname):
+    """go build of a main package (possibly one that exists only in the overlay)."""
+    bindir = os.path.join(BUILD, prop.id, "bin")
+    os.makedirs(bindir, exist_ok=True)
+    out = os.path.join(bindir, outname)
+    with Lock("gobuild." + prop.id + "." + outname):
+        run_cmd(["go", "build", "-tags", "verif", "-overlay", _overlay(prop), "-o", out, "./" + pkg.strip("./")],
+                cwd=REPO, timeout=1500)
     return out
 
 
@@ -314,8 +345,8 @@ def run_go(binpath, pkg, cases, out, timeout=900, extra_env=None, testname="Test
     return dt
 
 
-def run_model(cases, out, timeout=900):
-    exe = os.path.join(BUILD, "modelrun")
+def run_model(prop, cases, out, timeout=900):
+    exe = os.path.join(BUILD, prop.id, "modelrun")
     rc, log, dt = run_cmd(["bash", "-c", "ulimit -s unlimited 2>/dev/null; exec timeout %d %s %s %s" % (timeout, exe, cases, out)],
                           timeout=timeout + 30, check=False)
     if rc != 0:
@@ -374,7 +405,13 @@ class Prop:
     assumptions = ()
     rule = ""
     go_timeout = 900
+    model_timeout = 900
     go_env = None
+    consts = ()          # package tags whose TestVerifConsts regenerates <id>_Consts.v
+    models = ()          # Coq model files whose cNN_table entries make up the extracted dispatch
+    level_text = ""
+    level_note = ""
+    technique = ""
 
     def generate(self, rng, tier):
         return []
@@ -408,7 +445,7 @@ class Prop:
 class Ctx:
     def __init__(self, prop, tier, seed):
         self.prop, self.tier, self.seed = prop, tier, seed
-        self.work = os.path.join(BUILD, "run", prop.id)
+        self.work = os.path.join(BUILD, prop.id, "run")
         shutil.rmtree(self.work, ignore_errors=True)
         os.makedirs(self.work, exist_ok=True)
         self.bins = {}
@@ -416,7 +453,7 @@ class Ctx:
 
     def bin(self, tag):
         if tag not in self.bins:
-            self.bins[tag] = go_test_bin(self.prop.packages[tag])
+            self.bins[tag] = go_test_bin(self.prop, self.prop.packages[tag])
         return self.bins[tag]
 
     def eval_both(self, cases, label="batch"):
@@ -430,7 +467,7 @@ class Ctx:
                 f.write(line + "\n")
                 by_tag.setdefault(prop.kinds[c[0]], []).append(line)
         mo = os.path.join(self.work, label + ".model.out")
-        tm = run_model(allp, mo)
+        tm = run_model(prop, allp, mo, timeout=prop.model_timeout)
         mres = read_results(mo)
         gres = {}
         tg = 0.0
@@ -446,6 +483,26 @@ class Ctx:
         g = [gres.get(str(i)) for i in range(len(cases))]
         m = [mres.get(str(i)) for i in range(len(cases))]
         return g, m
+
+
+def regen_consts(ctx):
+    """If the property names packages in `consts`, their TestVerifConsts prints Coq definitions of
+    the constants/tables the compiled code uses; they become coq/theories/<id>_Consts.v (rewritten
+    only when different, so an unchanged tree causes no rebuild)."""
+    prop = ctx.prop
+    if not prop.consts:
+        return
+    body = ("(* %s_Consts.v - REGENERATED on every run from the compiled Go code by TestVerifConsts\n"
+            "   (harness/%s); do not edit. *)\nFrom Coq Require Import ZArith NArith List.\nImport ListNotations.\n" % (prop.id, prop.id))
+    for tag in prop.consts:
+        out = os.path.join(ctx.work, "consts.%s.out" % tag)
+        run_go(ctx.bin(tag), prop.packages[tag], "/dev/null", out, timeout=120, testname="TestVerifConsts")
+        body += open(out).read()
+    p = os.path.join(COQ, "theories", prop.id + "_Consts.v")
+    with Lock("coq"):
+        if not os.path.exists(p) or open(p).read() != body:
+            with open(p, "w") as f:
+                f.write(body)
 
 
 def _shrink_candidates(v):
@@ -535,6 +592,9 @@ def run_check(prop, tier, seed, replay=None):
     out_dir = os.path.join(BUILD, "replay")
     os.makedirs(out_dir, exist_ok=True)
 
+    # 0. constants regenerated from the compiled Go code into coq/theories/<id>_Consts.v
+    regen_consts(ctx)
+
     # 1. Coq: full build, forbidden-vernacular grep, property theorems + assumptions
     forb = grep_forbidden()
     coq_ok, coq_log = build_coq()
@@ -545,7 +605,7 @@ def run_check(prop, tier, seed, replay=None):
     closed = assumptions_out.count("Closed under the global context")
     axioms = sorted(set(re.findall(r"^([A-Za-z_][A-Za-z0-9_.']*)\s*:", assumptions_out.split("Axioms:", 1)[1], re.M))) \
         if "Axioms:" in assumptions_out else []
-    build_model()
+    build_model(prop)
 
     # 2. differential correspondence
     if replay:
